@@ -11,10 +11,21 @@ package main
 //	c06get   <unit> <file> <IDL struct> <new|zero> <slots JSON> <[[id,getter,isset],...]>
 //	                                                         {"obj":object,"getters":[[id,v]],"isset":[[id,b]]}
 //
+//	c06hist  <unit> <file> <IDL struct> <init|new> <[[id,getter,isset],...]>
+//	      history: instance a is constructed (InitDefault on &X{} / NewX()), every container, []byte and
+//	      struct reachable from a's fields is edited IN PLACE (element 0 overwritten, a map entry set, a field
+//	      of the inner struct changed), then b := &X{}; b.InitDefault(), b2 := NewX() and getters / IsSet on a
+//	      third zero object are observed; the edits are undone afterwards.
+//	      {"mutated":[ids],"a":object,"b_init":object,"b_new":object,"obj":zero object,"getters":[[id,v]],"isset":[[id,b]]}
+//	c06decode <unit> <file> <IDL struct W> <field id of a list<X>> <hex>
+//	      W.Read(hex) (a list of two X without fields), element 0 edited in place, element 1 dumped
+//	      {"err":class,"n":len,"mutated":[ids],"e0":object,"e1":object}
+//
 // Values are printed in the JSON value form of reflect.go; an untyped integer constant arrives
 // as a Go int and is printed as an integer.
 
 import (
+	"encoding/hex"
 	"encoding/json"
 	"fmt"
 	"reflect"
@@ -124,6 +135,225 @@ func init() {
 		}
 		res["getters"] = getters
 		res["isset"] = issets
+		return res
+	})
+}
+
+// ---- histories: in-place edits of one instance must not be visible in another
+
+// different returns a value of v's type that differs from v (ok=false when the type has only one value).
+func c06Different(v reflect.Value) (reflect.Value, bool) {
+	t := v.Type()
+	out := reflect.New(t).Elem()
+	switch v.Kind() {
+	case reflect.Bool:
+		out.SetBool(!v.Bool())
+	case reflect.Int8, reflect.Int16, reflect.Int32, reflect.Int64:
+		if v.Int() == 100 {
+			out.SetInt(99)
+		} else {
+			out.SetInt(100)
+		}
+	case reflect.Float64:
+		if v.Float() == 100.5 {
+			out.SetFloat(99.5)
+		} else {
+			out.SetFloat(100.5)
+		}
+	case reflect.String:
+		out.SetString(v.String() + "!")
+	case reflect.Slice:
+		if v.IsNil() || v.Len() == 0 {
+			out.Set(reflect.MakeSlice(t, 1, 1))
+		} else {
+			out.Set(reflect.MakeSlice(t, 0, 0))
+		}
+	case reflect.Map:
+		m := reflect.MakeMap(t)
+		if v.IsNil() || v.Len() == 0 {
+			m.SetMapIndex(reflect.New(t.Key()).Elem(), reflect.New(t.Elem()).Elem())
+		}
+		out.Set(m)
+	case reflect.Ptr:
+		if v.IsNil() {
+			out.Set(reflect.New(t.Elem()))
+		} // else: the nil pointer
+	case reflect.Struct:
+		out.Set(v)
+		for i := 0; i < t.NumField(); i++ {
+			if !out.Field(i).CanSet() {
+				continue
+			}
+			if d, ok := c06Different(v.Field(i)); ok {
+				out.Field(i).Set(d)
+				return out, true
+			}
+		}
+		return out, false
+	default:
+		return out, false
+	}
+	return out, true
+}
+
+// c06Mutate edits, in place, what the fields of the struct value sv refer to. It returns the thrift ids of
+// the edited fields and a function that undoes every edit.
+func c06Mutate(sv reflect.Value) (ids []int, undo func()) {
+	var undos []func()
+	for _, f := range ThriftFields(sv.Type()) {
+		fv := sv.Field(f.Index)
+		switch fv.Kind() {
+		case reflect.Slice:
+			if fv.IsNil() || fv.Len() == 0 {
+				continue
+			}
+			e := fv.Index(0)
+			old := reflect.New(e.Type()).Elem()
+			old.Set(e)
+			if e.Kind() == reflect.Uint8 {
+				e.SetUint(uint64(uint8(e.Uint()) ^ 0x5a))
+			} else if d, ok := c06Different(e); ok {
+				e.Set(d)
+			} else {
+				continue
+			}
+			undos = append(undos, func() { e.Set(old) })
+			ids = append(ids, f.ID)
+		case reflect.Map:
+			if fv.IsNil() {
+				continue
+			}
+			m := fv
+			if m.Len() > 0 {
+				it := m.MapRange()
+				it.Next()
+				k := reflect.New(m.Type().Key()).Elem()
+				k.Set(it.Key())
+				old := reflect.New(m.Type().Elem()).Elem()
+				old.Set(it.Value())
+				d, ok := c06Different(old)
+				if !ok {
+					continue
+				}
+				m.SetMapIndex(k, d)
+				undos = append(undos, func() { m.SetMapIndex(k, old) })
+			} else {
+				k := reflect.New(m.Type().Key()).Elem()
+				m.SetMapIndex(k, reflect.New(m.Type().Elem()).Elem())
+				undos = append(undos, func() { m.SetMapIndex(k, reflect.Value{}) })
+			}
+			ids = append(ids, f.ID)
+		case reflect.Ptr:
+			if fv.IsNil() || fv.Elem().Kind() != reflect.Struct {
+				continue
+			}
+			inner := fv.Elem()
+			old := reflect.New(inner.Type()).Elem()
+			old.Set(inner)
+			d, ok := c06Different(inner)
+			if !ok {
+				continue
+			}
+			inner.Set(d)
+			undos = append(undos, func() { inner.Set(old) })
+			ids = append(ids, f.ID)
+		}
+	}
+	return ids, func() {
+		for i := len(undos) - 1; i >= 0; i-- {
+			undos[i]()
+		}
+	}
+}
+
+func c06Observe(rv reflect.Value, namesJSON string, res map[string]interface{}) {
+	var names [][]interface{}
+	if err := json.Unmarshal([]byte(namesJSON), &names); err != nil {
+		panic(err)
+	}
+	getters, issets := []interface{}{}, []interface{}{}
+	for _, n := range names {
+		id := int(n[0].(float64))
+		if g, _ := n[1].(string); g != "" {
+			m := rv.MethodByName(g)
+			if !m.IsValid() || m.Type().NumIn() != 0 || m.Type().NumOut() != 1 {
+				panic("c06: no getter " + g)
+			}
+			getters = append(getters, []interface{}{id, json.RawMessage(Dump(m.Call(nil)[0]))})
+		}
+		if s, _ := n[2].(string); s != "" {
+			m := rv.MethodByName(s)
+			if !m.IsValid() || m.Type().NumIn() != 0 || m.Type().NumOut() != 1 {
+				panic("c06: no IsSet method " + s)
+			}
+			issets = append(issets, []interface{}{id, m.Call(nil)[0].Bool()})
+		}
+	}
+	res["getters"] = getters
+	res["isset"] = issets
+}
+
+func init() {
+	RegisterCommand("c06hist", func(a []string) interface{} {
+		fresh := func(mode string) interface{} {
+			x := c06New(a[0], a[1], a[2])
+			if mode == "init" {
+				x = reflect.New(reflect.TypeOf(x).Elem()).Interface()
+				x.(interface{ InitDefault() }).InitDefault()
+			}
+			return x
+		}
+		x := fresh(a[3])
+		ids, undo := c06Mutate(reflect.ValueOf(x).Elem())
+		defer undo()
+		res := map[string]interface{}{"mutated": ids, "a": json.RawMessage(Dump(reflect.ValueOf(x)))}
+		if ids == nil {
+			res["mutated"] = []int{}
+		}
+		res["b_init"] = json.RawMessage(Dump(reflect.ValueOf(fresh("init"))))
+		res["b_new"] = json.RawMessage(Dump(reflect.ValueOf(fresh("new"))))
+		c := reflect.New(reflect.TypeOf(x).Elem())
+		res["obj"] = json.RawMessage(Dump(c))
+		c06Observe(c, a[4], res)
+		return res
+	})
+
+	RegisterCommand("c06decode", func(a []string) interface{} {
+		w := c06New(a[0], a[1], a[2])
+		bs, err := hex.DecodeString(a[4])
+		if err != nil {
+			panic(err)
+		}
+		cls, _ := ReadBinary(w, bs)
+		res := map[string]interface{}{"err": cls}
+		if cls != "ok" {
+			return res
+		}
+		var id int
+		fmt.Sscanf(a[3], "%d", &id)
+		sv := reflect.ValueOf(w).Elem()
+		for _, f := range ThriftFields(sv.Type()) {
+			if f.ID != id {
+				continue
+			}
+			l := sv.Field(f.Index)
+			res["n"] = l.Len()
+			if l.Kind() != reflect.Slice || l.Len() != 2 {
+				return res
+			}
+			e0, e1 := l.Index(0), l.Index(1)
+			if e0.Kind() == reflect.Ptr {
+				e0, e1 = e0.Elem(), e1.Elem()
+			}
+			ids, undo := c06Mutate(e0)
+			defer undo()
+			if ids == nil {
+				ids = []int{}
+			}
+			res["mutated"] = ids
+			res["e0"] = json.RawMessage(Dump(e0))
+			res["e1"] = json.RawMessage(Dump(e1))
+		}
 		return res
 	})
 }
